@@ -6,7 +6,6 @@ import (
 	"crypto/ed25519"
 	"encoding/binary"
 	"io"
-	"io/ioutil"
 
 	xchacha "golang.org/x/crypto/chacha20poly1305"
 	"golang.org/x/crypto/curve25519"
@@ -61,7 +60,7 @@ func c04Pin(name string) string {
 func Harness_C04_q_pair_verify_talk() {
 	w := eeNewWorld()
 	w.dev.pin = c04Pin("pin")
-	_, sess := w.connect("10.0.0.2:5000")
+	conn, sess := w.connect("10.0.0.2:5000")
 	remote := "10.0.0.2:5000"
 	idLen := []int{1, 36}[verif.Choice("idlen", 2)]
 	ctrlID := verif.Bytes("controller-id", idLen)
@@ -160,27 +159,54 @@ func Harness_C04_q_pair_verify_talk() {
 		return
 	}
 
-	// ---- talk: one frame in each direction with the specification's control keys ----
+	// ---- talk: requests from one frame to several, through the accessory's connection ----
 	c2a := rcHKDF(shared[:], "Control-Salt", "Control-Write-Encryption-Key")
 	a2c := rcHKDF(shared[:], "Control-Salt", "Control-Read-Encryption-Key")
-	req := verif.Bytes("request", 3)
-	frame := func(key []byte, ctr uint64, pt []byte) []byte {
+	frames := func(key []byte, ctr uint64, pt []byte) ([]byte, uint64) {
 		a, _ := xchacha.New(key)
-		var nonce [12]byte
-		binary.LittleEndian.PutUint64(nonce[4:], ctr)
-		ad := []byte{byte(len(pt)), byte(len(pt) >> 8)}
-		return append(append([]byte{}, ad...), a.Seal(nil, nonce[:], pt, ad)...)
+		out := []byte{}
+		for len(pt) > 0 {
+			n := len(pt)
+			if n > 1024 {
+				n = 1024
+			}
+			var nonce [12]byte
+			binary.LittleEndian.PutUint64(nonce[4:], ctr)
+			ctr++
+			ad := []byte{byte(n), byte(n >> 8)}
+			out = append(append(out, ad...), a.Seal(nil, nonce[:], pt[:n], ad)...)
+			pt = pt[n:]
+		}
+		return out, ctr
 	}
-	r, err2 := dec.Decrypt(bytes.NewBuffer(frame(c2a, 0, req)))
-	verif.Assert(err2 == nil, "accessory-decrypts-controller-frame")
-	if err2 == nil {
-		got, _ := ioutil.ReadAll(r)
-		verif.Assert(verif.Eq(got, req), "accessory-reads-the-request")
+	sizes := []int{3, 1024, 1025, 2049}
+	if !verif.Thorough() {
+		sizes = []int{3, 1024, 1025}
 	}
-	resp := verif.Bytes("response", 3)
-	er, _ := sess.Encrypter().Encrypt(bytes.NewBuffer(append([]byte{}, resp...)))
-	wire, _ := ioutil.ReadAll(er)
-	verif.Assert(verif.Eq(wire, frame(a2c, 0, resp)), "accessory-frame-uses-the-read-key-and-counter-0")
+	req := verif.Bytes("request", sizes[verif.Choice("request-size", len(sizes))])
+	wire, _ := frames(c2a, 0, req)
+	conn.in = append(conn.in, wire...)
+	var got []byte
+	for i := 0; i < 8 && len(got) < len(req); i++ {
+		buf := make([]byte, 4096)
+		n, err := w.lastConn.Read(buf)
+		verif.Assert(err == nil, "accessory-reads-controller-frames")
+		if err != nil {
+			return
+		}
+		got = append(got, buf[:n]...)
+	}
+	verif.Assert(verif.Eq(got, req), "accessory-reads-the-request")
+	resp := verif.Bytes("response", sizes[verif.Choice("response-size", len(sizes))])
+	n, err2 := w.lastConn.Write(append([]byte{}, resp...))
+	verif.Assert(err2 == nil && n > 0, "accessory-writes-the-response")
+	var sent []byte
+	for _, b := range conn.written {
+		sent = append(sent, b...)
+	}
+	want, _ := frames(a2c, 0, resp)
+	verif.Assert(verif.Eq(sent, want), "accessory-frames-use-the-read-key-and-counters-from-0")
+	_ = dec
 	verif.Reach("end")
 }
 
